@@ -29,7 +29,9 @@ GROUPS = ["box", "sim", "out", "grp", "inner", "cfg", "box2", "cfgx"]
 WORDS = ["dog", "cat", "horse", "abc", "x", "New York", "run-1", "zeta", "A1"]
 FORMATS = [("[a-z]+", ["dog", "cat", "abc", "zeta"], ["A1", "New York", "X"]),
            ("[A-Z][0-9]", ["A1", "B7"], ["dog", "a1", "1A"]),
-           ("(dog|cat)$", ["dog", "cat"], ["horse", "doge", "x"])]
+           ("(dog|cat)$", ["dog", "cat"], ["horse", "doge", "x"]),
+           ("[A-Z][a-z]+", ["Bob", "Alice", "None", "True"], ["dog", "x1", "42"]),
+           ("[A-Za-z]+$", ["Bob", "dog", "none"[:0] + "Nil"], ["A1", "New York", "42"])]
 
 
 # ------------------------------------------------------------------------------ comparison
@@ -299,6 +301,11 @@ class RoundGen:
         """Literal that, given in `unit`, equals v_node in the node's own unit."""
         if unit is None or node["unit"] is None or unit == node["unit"] or v_node is None:
             return v_node, (unit if node["unit"] is not None else None)
+        if node["unit"] in DM.TEMP and unit in DM.TEMP:
+            if node["type"] == "int":
+                return v_node, node["unit"]
+            return DM.map_leaves(
+                v_node, lambda x: float(f"{DM.temp_convert(x, node['unit'], unit):.12g}")), unit
         k = self.g.units.factor(node["unit"]) / self.g.units.factor(unit)
         if node["type"] == "int":
             r = round(k)
@@ -509,6 +516,8 @@ class RoundGen:
     def s_properties(self, path, indent):
         rng, cfg = self.rng, self.cfg
         node = self.g.nodes[path]
+        if node["unit"] in DM.TEMP:
+            return
         typ = node["type"]
         v = node["value"]
         meta = self.meta.setdefault(path, {})
@@ -568,7 +577,8 @@ class RoundGen:
                           if p_ != path and n_["type"] == typ and not isinstance(n_["value"], (list, bool))
                           and n_["value"] is not None and (n_["unit"] is None) == (node["unit"] is None)
                           and (n_["unit"] is None or self.g.units.dims(n_["unit"]) ==
-                               self.g.units.dims(node["unit"])) and not n_.get("imported")]
+                               self.g.units.dims(node["unit"])) and not n_.get("imported")
+                          and n_["unit"] not in DM.TEMP]
                 if others:
                     op_ = rng.choice(others)
                     probe = dict(node, condition=["cmpnode", "<", op_])
@@ -700,7 +710,13 @@ class RoundGen:
         v = self.good_value(node)
         unit = None
         none_unit = False
-        if fault == "bad_value":
+        if fault == "bad_value" and rng.random() < 0.12 and not node["declared"] and \
+                node["dims"] is None and (node["options"] or node["condition"] is not None
+                                          or node["format"] is not None):
+            # none is no option, makes no condition true and matches no format
+            v = None
+            self.fault_label = "constraint_none"
+        elif fault == "bad_value":
             bv, kind = self.bad_value(node)
             if bv is None:
                 return
@@ -716,8 +732,11 @@ class RoundGen:
         if v is None and none_unit and typ in ("int", "float") and node["unit"] is not None \
                 and node["dims"] is None:
             unit = self.other_unit(node, typ)      # 'a = none cm': still no value, unit kept
+        # a value sitting exactly on a boundary (closed: accepted, open: refused) is written in
+        # the node's own unit, otherwise the conversion decides on which side it lands
+        _lo, _hi, _closed = cond_range(node, self.g.units)
         on_boundary = typ in ("int", "float") and not isinstance(v, list) and v is not None \
-            and v in cond_range(node, self.g.units)[2]
+            and (v in _closed or v == _lo or v == _hi)
         if typ in ("int", "float") and v is not None:
             r = rng.random()
             if on_boundary:
@@ -777,7 +796,8 @@ class RoundGen:
             cands = [p_ for p_, n_ in self.g.nodes.items()
                      if n_["type"] in ("int", "float") and n_["unit"] is not None
                      and isinstance(n_["value"], (int, float)) and not isinstance(n_["value"], bool)
-                     and n_["value"] > 0 and not n_["unit"].startswith("[")]
+                     and n_["value"] > 0 and not n_["unit"].startswith("[")
+                     and n_["unit"] not in DM.TEMP]
             if cands:
                 rp = rng.choice(cands)
                 own = rng.choice([None, None, "mm", "s", "g"])
@@ -938,9 +958,20 @@ class RoundGen:
                         sl = [[a, None]]
                         dims = [[sh[0] - a, sh[0] - a]]
                 else:
-                    j = rng.randrange(sh[1])
-                    sl = [[None, None], [j, j]]
-                    dims = [[sh[0], sh[0]]]
+                    i, j = rng.randrange(sh[0]), rng.randrange(sh[1])
+                    r2 = rng.random()
+                    if r2 < 0.4:
+                        sl = [[None, None], [j, j]]              # a column
+                        dims = [[sh[0], sh[0]]]
+                    elif r2 < 0.6:
+                        sl = [[i, i], [j, j]]                    # one element
+                        dims = None
+                    elif r2 < 0.8:
+                        sl = [[i, i], [None, None]]              # a row
+                        dims = [[sh[1], sh[1]]]
+                    else:
+                        sl = [[i, i], [j, None]]                 # the tail of a row
+                        dims = [[sh[1] - j, sh[1] - j]]
             else:
                 dims = [[n, n] for n in sh]
         if rnode is not None and isinstance(rnode["value"], str) and rng.random() < cfg["p_str_slice"]:
@@ -1008,7 +1039,8 @@ class RoundGen:
         """flag bool = ("{?a} > {?b}") between two stored numeric nodes of one dimension."""
         rng = self.rng
         nums = [p for p, n in self.g.nodes.items() if n["type"] in ("int", "float")
-                and n["value"] is not None and not isinstance(n["value"], list)]
+                and n["value"] is not None and not isinstance(n["value"], list)
+                and n["unit"] not in DM.TEMP]
         if len(nums) < 2:
             return
         a = rng.choice(nums)
